@@ -288,3 +288,129 @@ Proof.
       destruct (Nat.eq_dec c c0) as [->|Nc]; [|rewrite upd_other in Hin by exact Nc; exact Hin].
       rewrite upd_same in Hin. destruct Hin as [E|Hin]; [congruence|exact Hin].
 Qed.
+
+(* internal_wake: the top of the list is unlinked *)
+Lemma step_cs_pop ff r g p k :
+  stk (gb x) t = stk_of (PCs ff (MWk4 r g p k)) -> L (view_of x t) (PCs ff (MWk4 r g p k)) ->
+  X x t (PCs ff (MWk4 r g p k)) -> Inv (gstep x t).
+Proof.
+  intros Hs HL HX. destruct HL as [Hob Hch]. assert (Hr : role x t = Owner) by apply Hob.
+  cbn [X csx is_wt4] in HX, Hch. destruct HX as (c0 & rest & Hl & -> & Eq).
+  assert (Hex : extra (stk (gb x) t) = []) by (rewrite Hs; reflexivity).
+  pose proof (I_Q x HI) as [Q1 Q2 Q3].
+  assert (Hgq : chand x g = CQueued) by (apply (Q3 c0 g Hl); rewrite Eq; cbn; auto).
+  assert (Hgt : g <> t) by (intros ->; cbn in Hch; destruct Hch; congruence).
+  assert (Hgo : role x g <> Owner) by (intros E; apply Hgt; apply (I_own1 x (I_C x HI)); assumption).
+  pose proof (Q1 c0 Hl) as Hok. rewrite Eq in Hok. destruct Hok as [Hv Hok].
+  assert (Hnd : ~ In g rest /\ forall c, lhd c -> c <> c0 -> ~ In g (cq x c)).
+  { destruct Hl as [-> | ->]; rewrite Eq in Q2.
+    - cbn in Q2. apply NoDup_cons_iff in Q2 as [Hn _]. rewrite in_app_iff in Hn. split; [tauto|].
+      intros c [-> | ->] Nc; [congruence|tauto].
+    - apply NoDup_remove_2 in Q2. rewrite in_app_iff in Q2. split; [tauto|].
+      intros c [-> | ->] Nc; [tauto|congruence]. }
+  destruct Hnd as [Hnr Hno].
+  gred Hs. cbn. rewrite Eq. cbn [List.tl].
+  apply (cs_gen (set_cell m c0 (cell m (c_scr g))) (PCs (CWrite (c_scr g) 0) (MWk5 r g p k))); try reflexivity; try assumption.
+  - split; [exact Hob|]. cbn. rewrite upd_other by auto. exact Hch.
+  - cbn. split; [reflexivity|apply upd_same].
+  - intros u q Hu Hq HLq. destruct (Nat.eq_dec u g) as [->|Ng].
+    + eapply L_eqv; [|apply (L_cpop _ q t HLq Hgq Hgo)]. unfold view_eqv, view_of. cbn. rewrite upd_same. tauto.
+    + eapply L_eqv; [|exact HLq]. view_same Ng.
+  - constructor; cbn [mk gb mem cq chand set_cell cell].
+    + intros c Hc. destruct (Nat.eq_dec c c0) as [->|Nc].
+      * rewrite upd_same. apply (clist_ok_head _ (c_scr g)).
+        -- rewrite upd_same. apply upd_other. apply not_eq_sym. apply lhd_scr. exact Hl.
+        -- apply clist_ok_upd; [apply not_eq_sym; apply lhd_scr; exact Hl| |exact Hok].
+           intros f _. apply not_eq_sym. apply lhd_scr. exact Hl.
+      * rewrite upd_other by exact Nc. apply clist_ok_upd; [exact Nc| |apply Q1; exact Hc].
+        intros f _. apply not_eq_sym. apply lhd_scr. exact Hl.
+    + destruct Hl as [-> | ->]; rewrite Eq in Q2.
+      * rewrite upd_same, upd_other by (unfold c_waiters, c_rwaiters; lia).
+        cbn in Q2. apply NoDup_cons_iff in Q2. tauto.
+      * rewrite upd_same, upd_other by (unfold c_waiters, c_rwaiters; lia).
+        apply NoDup_remove_1 in Q2. exact Q2.
+    + intros c f Hc Hin. destruct (Nat.eq_dec c c0) as [->|Nc].
+      * rewrite upd_same in Hin. rewrite upd_other by (intros ->; tauto).
+        apply (Q3 c0 f Hc). rewrite Eq. cbn. auto.
+      * rewrite upd_other in Hin by exact Nc. rewrite upd_other by (intros ->; apply (Hno c Hc Nc Hin)).
+        apply (Q3 c f Hc Hin).
+Qed.
+
+(* internal_wake: the popped fiber is made READY and scheduled; then fiber_mutex_unlock *)
+Lemma step_cs_wake ff r g p k :
+  stk (gb x) t = stk_of (PCs ff (MWk6 r g p k)) -> L (view_of x t) (PCs ff (MWk6 r g p k)) ->
+  X x t (PCs ff (MWk6 r g p k)) -> Inv (gstep x t).
+Proof.
+  intros Hs HL HX. destruct HL as [Hob Hch]. assert (Hr : role x t = Owner) by apply Hob.
+  cbn [X csx is_wt4] in HX, Hch. destruct HX as (-> & Hg).
+  assert (Hex : extra (stk (gb x) t) = []) by (rewrite Hs; reflexivity).
+  assert (Hgt : g <> t) by (intros ->; cbn in Hch; destruct Hch; congruence).
+  destruct (I_thr x HI g) as (qg & G1 & G2 & G3).
+  destruct (L_cwake _ qg t G2 Hg) as [Hgs Gw].
+  set (m1 := wake (set_fstate m g ST_READY) g).
+  assert (Hm1 : ndata m1 = ndata m /\ nnext m1 = nnext m /\ word m1 = word m /\ qhead m1 = qhead m /\
+                qtail m1 = qtail m /\ fnode m1 = fnode m /\ cell m1 = cell m /\
+                slot_sched m1 = slot_sched m /\ slot_wait m1 = slot_wait m /\ slot_mpmc m1 = slot_mpmc m /\
+                slot_mutex m1 = slot_mutex m /\
+                (forall u, u <> g -> fstate m1 u = fstate m u /\ blocked m1 u = blocked m u /\ pend m1 u = pend m u) /\
+                fstate m1 g = ST_READY /\ blocked m1 g = false /\
+                pend m1 g = (if blocked m g then pend m g else S (pend m g))).
+  { unfold m1, wake. cbn [set_fstate blocked]. destruct (blocked m g) eqn:Eb; cbn;
+    repeat split; try reflexivity; intros; rewrite ?upd_same, ?upd_other by assumption; auto. }
+  destruct Hm1 as (Ed & En & Ew & Eh & Et & Ef & Ec & S2 & S3 & S4 & S1 & Eo & Gf & Gb & Gp).
+  unfold gstep, step. rewrite Hs. cbn [stk_of]. cbn -[wake]. fold m1.
+  apply (cs_gen m1 (PUAdd r p k)); try assumption; try reflexivity.
+  - intros u w Hu. apply Eo. intros ->. apply (settled_not_node _ w Hgs). exact Hu.
+  - destruct (Eo t (not_eq_sym Hgt)) as (F1 & F2 & F3).
+    revert Hob Hch. Lunf. unfold view_of. cbn [mk gb mem role hand gq chand vfs vfn vpd vbl vro vha vch vsm vinq].
+    rewrite F1, F2, F3, Ef, S1, upd_other by auto. tauto.
+  - intros u q Hu Hq HLq. destruct (Nat.eq_dec u g) as [->|Ng].
+    + assert (q = qg \/ True) as _ by auto.
+      assert (HLg : L (view_of x g) q) by exact HLq.
+      destruct (L_cwake _ q t HLg Hg) as [_ Gw'].
+      eapply L_eqv; [|exact Gw']. unfold view_eqv, view_of.
+      cbn [mk gb mem role hand gq chand vfs vfn vpd vbl vro vha vch vsm vinq].
+      rewrite Gf, Gb, Gp, Ef, S1, upd_same. tauto.
+    + destruct (Eo u Ng) as (F1 & F2 & F3). eapply L_eqv; [|exact HLq]. unfold view_eqv, view_of.
+      cbn [mk gb mem role hand gq chand vfs vfn vpd vbl vro vha vch vsm vinq].
+      rewrite F1, F2, F3, Ef, S1, upd_other by auto. tauto.
+  - pose proof (I_Q x HI) as [Q1 Q2 Q3]. constructor; cbn [mk gb mem cq chand]; rewrite ?Ec.
+    + exact Q1.
+    + exact Q2.
+    + intros c f Hc Hin. pose proof (Q3 c f Hc Hin) as E. rewrite upd_other; [exact E|].
+      intros ->. congruence.
+Qed.
+
+(* internal_wait: state WAITING, the unlock is deferred to the maintenance of the yield *)
+Lemma step_cs_defer ff a p k :
+  stk (gb x) t = stk_of (PCs ff (MWt4 a p k)) -> L (view_of x t) (PCs ff (MWt4 a p k)) ->
+  X x t (PCs ff (MWt4 a p k)) -> Inv (gstep x t).
+Proof.
+  intros Hs HL HX. destruct HL as [Hob Hch]. assert (Hr : role x t = Owner) by apply Hob.
+  cbn [X csx is_wt4] in HX, Hch. subst ff.
+  assert (Hex : extra (stk (gb x) t) = []) by (rewrite Hs; reflexivity).
+  assert (Hset : settled (hand x t)) by apply Hob.
+  gred Hs. cbn.
+  apply (cs_gen (set_slot_mutex (set_fstate m t ST_WAITING) t (Some 0%nat)) (PY YfY a p k)); try reflexivity; try assumption.
+  - intros u w Hu. cbn. apply upd_other. intros ->. apply (settled_not_node _ w Hset). exact Hu.
+  - left. revert Hob Hch. Lunf. unfold view_of. cbn. rewrite !upd_same. tauto.
+  - intros u q Hu _ HLq. eapply L_eqv; [|exact HLq]. view_same Hu.
+  - apply (invQ_frame x); try reflexivity. apply (I_Q x HI).
+Qed.
+
+Lemma step_PCs ff cc :
+  stk (gb x) t = stk_of (PCs ff cc) -> L (view_of x t) (PCs ff cc) -> X x t (PCs ff cc) -> Inv (gstep x t).
+Proof.
+  intros Hs HL HX. destruct cc;
+    try (apply (step_cs_read _ _ Hs HL HX I));
+    try (apply (step_cs_cell _ _ Hs HL HX I)).
+  - destruct HX.
+  - destruct HX.
+  - apply (step_cs_pop _ _ _ _ _ Hs HL HX).
+  - apply (step_cs_wake _ _ _ _ _ Hs HL HX).
+  - destruct HX.
+  - apply (step_cs_push _ _ _ _ Hs HL HX).
+  - apply (step_cs_defer _ _ _ _ Hs HL HX).
+  - destruct HX.
+Qed.
+End Cs.
